@@ -260,6 +260,13 @@ func (a *DateArg) Parse() error {
 	if len(str) != 10 {
 		return ErrInval
 	}
+	// Only digits and the two dashes: strconv.Atoi below would also
+	// accept a sign ("+020-01-01", "2020-+1-01").
+	for i := 0; i < len(str); i++ {
+		if (i == 4 || i == 7) != (str[i] == '-') || (str[i] != '-' && (str[i] < '0' || str[i] > '9')) {
+			return ErrInval
+		}
+	}
 
 	/* 4DIGIT */
 	i = strings.Index(str, "-")
